@@ -324,6 +324,7 @@ class Orchestrator:  # thailint: ignore[srp]
             List of violations found across all files.
         """
         violations = []
+        _verif_emit("run_begin", kind="files", nfiles=len(file_paths))
 
         for file_path in file_paths:
             violations.extend(self.lint_file(file_path))
@@ -405,6 +406,7 @@ class Orchestrator:  # thailint: ignore[srp]
         violations = []
         # Use fast file collection that skips excluded directories entirely
         file_paths = _collect_files_fast(dir_path, recursive)
+        _verif_emit("run_begin", kind="directory", nfiles=len(file_paths))
 
         for file_path in file_paths:
             violations.extend(self.lint_file(file_path))
